@@ -297,7 +297,7 @@ def campaign(tier, seed):
         return out
 
 
-MC_INV = {'C01': 'C01_Coupled', 'C02': 'C02_Torques', 'C03': 'C03_Motion', 'C11': 'C11_Grid', 'C13': 'C13_SignSafe, C13_NoClamp, C13_HeldMeansStill',
+MC_INV = {'C01': 'C01_Coupled', 'C02': 'C02_Torques', 'C03': 'C03_Motion', 'C11': 'C11_Grid', 'C13': 'C13_SignSafe, C13_NoClamp, C13_HeldMeansStill and the refinement property RefinesLockAbs (every step of Solver is a step of the sign abstraction)',
           'C14': 'C14_Range', 'C16': 'C16_FirstHit', 'C17': 'C17_Rect'}
 
 
